@@ -61,12 +61,24 @@ pub fn panic_key(src: &mut SrcLines, file: &str, line: u32, msg: &str) -> String
     format!("PANIC|dep:{}:{}|{}", short, line, head)
 }
 
-fn newlines(b: &[u8]) -> u32 {
-    b.iter().filter(|c| **c == b'\n').count() as u32
+/// number of lines of a delivered file as `str::lines` counts them (a final newline does not open
+/// another line); an empty file has one (empty) line for the purpose of locating an error
+fn line_count(b: &[u8]) -> u32 {
+    let nl = b.iter().filter(|c| **c == b'\n').count() as u32;
+    let n = if b.is_empty() || b.ends_with(b"\n") { nl } else { nl + 1 };
+    n.max(1)
 }
 
 /// C16: the job must end with Ok or a structured, located error.
 pub fn check_c16(job: &JobSpec, r: &JobResult, src: &mut SrcLines) -> Option<Violation> {
+    if let Some(b) = &r.bad_map {
+        let what = if b.contains("not delivered") { "file" } else { "line" };
+        return Some(Violation {
+            class: "BADLOC".into(),
+            key: format!("BADLOC|map|{}", what),
+            detail: format!("the line map handed to the builder points outside the delivered input: {}", b),
+        });
+    }
     match &r.obs.outcome {
         Outcome::Ok | Outcome::ArgsRejected(_) => None,
         Outcome::Panic { file, line, msg } => {
@@ -96,7 +108,7 @@ pub fn check_c16(job: &JobSpec, r: &JobResult, src: &mut SrcLines) -> Option<Vio
                         detail: format!("error names file {:?} which was never delivered: {}", filename, text),
                     }),
                     Some(d) => {
-                        let max = newlines(&d) + 1;
+                        let max = line_count(&d);
                         if *line >= 1 && *line <= max {
                             None
                         } else {
